@@ -236,9 +236,10 @@ package tchannel
 //@   ensures !initial ==> wf.frame.Header.messageType == messageTypeCallReqContinue
 //@   property C04 C08
 
-// (the call-req path counts for C08 too: ttl clamp, remapped ids, hand-over)
+// (the call-req path counts for C08 and C09 too: ttl clamp, remapped ids,
+// hand-over, pending-count accounting)
 //@ func (r *Relayer) handleCallReq(f *lazyCallReq) (shouldRelease bool, err error)
-//@   property C08
+//@   property C08 C09
 
 // ---------------------------------------------------------------------------
 // the relayer's frame entry point
